@@ -1,5 +1,12 @@
 import CattrsModel.Conv.Driver
 import CattrsModel.Disambig.Driver
+import CattrsModel.Dispatch.Driver
+import CattrsModel.Threads.Driver
+import CattrsModel.Tagged.Driver
+import CattrsModel.Passthrough.Driver
+import CattrsModel.Preconf.Driver
+import CattrsModel.FieldConv.Driver
+import CattrsModel.GenHook.Driver
 open CattrsModel
 
 structure DState where
@@ -8,6 +15,13 @@ structure DState where
 /-- handlers of the areas that need no driver state, tried in order -/
 def stateless (op : String) (args : List Sexp) : Option Sexp :=
   (Disambig.disambigHandle op args)
+    |>.orElse (fun _ => Dispatch.dispatchHandle op args)
+    |>.orElse (fun _ => Threads.threadsHandle op args)
+    |>.orElse (fun _ => Tagged.taggedHandle op args)
+    |>.orElse (fun _ => Passthrough.passHandle op args)
+    |>.orElse (fun _ => Preconf.preconfHandle op args)
+    |>.orElse (fun _ => FieldConv.fieldConvHandle op args)
+    |>.orElse (fun _ => GenHook.genHookHandle op args)
 
 def step (st : DState) (line : String) : DState × String :=
   match Sexp.parseLine line with
